@@ -29,9 +29,11 @@ package bpv7
 // sort.Sort over the block slice (outside reach): permutes the blocks in place
 // govc:trusted (*Bundle).sortBlocks
 //@ assigns elems(b.CanonicalBlocks)
+//@ ensures old(cbsNonNil(b.CanonicalBlocks)) ==> cbsNonNil(b.CanonicalBlocks)
 
 // govc:trusted (*Bundle).SetCRCType
 //@ assigns b.PrimaryBlock.CRCType, b.PrimaryBlock.CRC, elems(b.CanonicalBlocks)
+//@ ensures old(cbsNonNil(b.CanonicalBlocks)) ==> cbsNonNil(b.CanonicalBlocks)
 
 // builder steps that parse their argument (durations, block arguments, the clock): only their frame is assumed
 // govc:trusted (*BundleBuilder).Lifetime
@@ -45,3 +47,4 @@ package bpv7
 // govc:trusted (*BundleBuilder).Canonical
 //@ assigns bldr.err, bldr.canonicals, bldr.canonicalCounter
 //@ ensures result == bldr
+//@ ensures old(cbsNonNil(bldr.canonicals)) ==> cbsNonNil(bldr.canonicals)
